@@ -9,6 +9,7 @@ mod deliveries;
 mod entropy;
 mod faults;
 mod guard;
+mod isolate;
 mod props;
 mod reference;
 mod report;
@@ -37,6 +38,8 @@ fn main() {
     }
     let code = match args[1].as_str() {
         "selftest" => selftest::run(),
+        "c08-child" => props::c08::child_main(&args[2..]),
+        "c15-child" => props::c15::child_main(&args[2..]),
         "check" => {
             if args.len() < 4 {
                 eprintln!("usage: falcon-sim check <ID> <quick|thorough>");
